@@ -10,7 +10,7 @@ mod verif_ctor {
         let mut m: u128 = 0;
         let mut empty = false;
         for i in 0..shape.len() {
-            if shape[i] == 0 { empty = true; } else { m += (shape[i] as u128 - 1) * (strides[i] as u128); }
+            if shape[i] == 0 { empty = true; } else { m = m.saturating_add((shape[i] as u128 - 1) * (strides[i] as u128)); }
         }
         if empty { None } else { Some(m) }
     }
@@ -18,6 +18,21 @@ mod verif_ctor {
     /// valid(t): every in-bounds index maps (over the integers) to an offset < storage length.
     fn valid(shape: &[usize], strides: &[usize], storage_len: usize) -> bool {
         match z_max_offset(shape, strides) { None => true, Some(m) => m < storage_len as u128 }
+    }
+
+    /// Stand-in for std's sort_unstable inside may_have_internal_overlap (see U-overlap, where the
+    /// stub itself is checked): CBMC cannot execute std's sort on a symbolic-length slice.
+    pub fn insertion_sort<T: Ord>(v: &mut [T]) {
+        let n = v.len();
+        let mut i = 1;
+        while i < n {
+            let mut j = i;
+            while j > 0 && v[j - 1] > v[j] {
+                v.swap(j - 1, j);
+                j -= 1;
+            }
+            i += 1;
+        }
     }
 
     fn any_vec() -> Vec<u8> {
@@ -55,6 +70,7 @@ mod verif_ctor {
             /// from_data_with_strides: Ok(t) => valid(t).
             #[kani::proof]
             #[kani::unwind(6)]
+            #[kani::stub(<[(usize, usize)]>::sort_unstable, insertion_sort)]
             pub fn $with_strides() {
                 let shape: [usize; $n] = kani::any();
                 let strides: [usize; $n] = kani::any();
@@ -107,7 +123,7 @@ mod verif_ctor {
             match v.get(idx) {
                 Some(x) => {
                     assert!(inb);
-                    let off = idx[0] as u128 * strides[0] as u128 + idx[1] as u128 * strides[1] as u128;
+                    let off = (idx[0] as u128 * strides[0] as u128).saturating_add(idx[1] as u128 * strides[1] as u128);
                     assert!(off < len as u128);
                     assert!(*x == buf[off as usize]);
                     kani::cover!(off > 0);
